@@ -439,6 +439,13 @@ class LibsModel:
             st.heap[base.oid].setdefault('coords', AV(ty='ndarray', geo=('RAW',), axes=('frame', 'atom', XYZ), deps=base.deps,
                                                       store='attr:Trajectory.coords', prov=frozenset({'traj.coords'})))
 
+        if ci.qualname == 'gemdat.transitions.Transitions':
+            # documented layout of the state arrays: [time step, atom], values = site index or NOSITE
+            for attr in ('states', 'inner_states'):
+                cur = st.heap[base.oid].get(attr)
+                if cur is not None and cur.axes is None and cur.ty in (None, 'ndarray'):
+                    st.heap[base.oid][attr] = cur.w(ty='ndarray', axes=('frame', 'atom'), idx=cur.idx if cur.idx is not None else ('SITE', True))
+
     def ext_base_init(self, interp, st, obj, ci, args, kwargs, node):
         _, ext = interp.p.mro(ci)
         if any(e and e.endswith('trajectory.Trajectory') for e in ext):
